@@ -223,8 +223,16 @@ def r2_who(ctx):
         r.inst("registry single writer", "%d bodies lock the registry; only RegisterCtx::register takes mutable access (to_array reads through Deref)" % lockers)
     from rules.common import msum
     got = msum(prog, r"register::RegisterCtx::<L>::provide_context$")
+    from rules.common import mpaths as _mp
+    ps_ = _mp(prog, r"register::RegisterCtx::<L>::provide_context$") or []
+    fresh = [p_ for p_ in ps_ if "prelude::provide_context(RegisterCtx#RegisterCtx(Clone::clone(Arc::new(Mutex::new(HashMap::new())))))" in p_
+             and p_.endswith("=> Option#Some(RegisterCtx#RegisterCtx(Arc::new(Mutex::new(HashMap::new()))))")]
+    reuse = [p_ for p_ in ps_ if p_.endswith("=> Option#None()") and "prelude::provide_context(" not in p_ and "Option::is_some(prelude::use_context()) != 0" in p_]
     if got and got[0][1] == "RegisterCtx#RegisterCtx(Arc::new(Mutex::new(HashMap::new())))" and got[0][2] == ["prelude::provide_context(RegisterCtx#RegisterCtx(Clone::clone(Arc::new(Mutex::new(HashMap::new())))))"]:
-        r.inst("RegisterCtx::provide_context", "a new empty map per call (per rendered request)")
+        r.viol("R2:RegisterCtx::provide_context#nested", "a new registry is created on every call, also inside another provider: a nested `I18nContextProvider` (documented as harmless) then collects the units used "
+               "under it in its own registry and emits a second `window.__LEPTOS_I18N_TRANSLATIONS = ..`, after which the outer provider's (empty) one wins: the page embeds `[]`", file=F)
+    elif len(ps_) == 2 and len(fresh) == 1 and len(reuse) == 1:
+        r.inst("RegisterCtx::provide_context", "a new empty map per outermost provider (per rendered request); inside another provider none is created: its units go to the outer registry, which embeds them")
     else:
         r.viol("R2:RegisterCtx::provide_context", "the registry is not created fresh per context: %s" % (got,), file=F)
     # generated code: create_locale_type_inner evaluated (rules/absint.py) for two locales (one hyphenated) in three configurations and
@@ -340,7 +348,15 @@ def r3_always(ctx):
     # one registry and one script per rendered provider: only the context provider creates the registry and embeds it (a nested
     # provider with its own registry emits a second assignment to the same global, and the later script wins)
     for rx, what in ((r"register::RegisterCtx::<L>::provide_context$", "creates a registry"), (r"context::embed_translations_fn$", "embeds the script")):
-        who = sorted({M.owner_of(prog, bb.name).split("leptos_i18n::")[-1] for (bb, _i, _t) in prog.callers_of(rx)})
+        who = {M.owner_of(prog, bb.name).split("leptos_i18n::")[-1] for (bb, _i, _t) in prog.callers_of(rx)}
+        # (also when handed over as a function value: `reg_ctx.map(embed_translations_fn)`)
+        short_ = rx.rstrip("$").split("::")[-1]
+        for bn_, bb_ in prog.bodies.items():
+            for _i2, t2_ in bb_.calls():
+                full_ = (t2_.get("func", {}).get("const") or {}).get("fn_full", "")
+                if re.search(rx.rstrip("$").replace("<L>", "<[^>]*>") + r"(\b|$)", full_) and not re.search(rx, _cn(t2_) or ""):
+                    who.add(M.owner_of(prog, bn_).split("leptos_i18n::")[-1])
+        who = sorted(who)
         if who == ["context::provide_i18n_context_component_inner"]:
             r.inst("who " + what, "provide_i18n_context_component_inner only")
         else:
